@@ -14,10 +14,13 @@
 #include <unistd.h>
 
 #define VP_RETK 30
-unsigned char vp_arg[32][64] __attribute__((aligned(64)));
-unsigned char vp_cap[32][64] __attribute__((aligned(64)));
-unsigned char vp_retsrc[64] __attribute__((aligned(64)));
-unsigned char vp_retdst[64] __attribute__((aligned(64)));
+/* VP_SLOT (bytes per argument / capture / return buffer) is defined by the generated tables; the generated unit declares
+ * the buffers with the same number.  Types of more than 64 bytes have no padding (enforced by the generator): all their bytes
+ * are compared and the mask is not used. */
+unsigned char vp_arg[32][VP_SLOT] __attribute__((aligned(64)));
+unsigned char vp_cap[32][VP_SLOT] __attribute__((aligned(64)));
+unsigned char vp_retsrc[VP_SLOT] __attribute__((aligned(64)));
+unsigned char vp_retdst[VP_SLOT] __attribute__((aligned(64)));
 volatile int vp_ncall, vp_nid;
 volatile long vp_one, vp_x[3], vp_sink;
 volatile double vp_done, vp_dx[3], vp_dsink;
@@ -29,7 +32,7 @@ extern int vp_t_calls, vp_t_bad, vp_t_misaligned, vp_t_depth;
 static int cur_sig, cur_cfg;
 
 static unsigned char pat(int k, int i) {
-  unsigned char v = 1 + (29 * k + 5 * i) % 126;
+  unsigned char v = 1 + (29 * k + 5 * i + 11 * (i >> 7)) % 126;      /* i >> 7: no period below the largest aggregate */
   if (i % 16 == 7) v |= 0x80;
   return v;
 }
@@ -42,15 +45,18 @@ static void fatal(int signo) {
   _exit(77);
 }
 
+/* bytes of a slot that a test of type t may touch: 64 for the small types, the size + 64 for the large ones */
+static int span(const struct vp_ty *t) { return t && t->size > 64 ? t->size + 64 : 64; }
+
 static void fill(unsigned char *dst, int k, const struct vp_ty *t) {
-  for (int i = 0; i < 64; i++) dst[i] = pat(k, i);
+  for (int i = 0, n = span(t); i < n; i++) dst[i] = pat(k, i);
   if (t && t->isbool) dst[0] &= 1;
 }
 
 /* first offset at which value bytes differ, or -1 */
 static int diff(const unsigned char *got, int k, const struct vp_ty *t) {
   for (int i = 0; i < t->size; i++) {
-    if (!(t->mask >> i & 1)) continue;
+    if (t->size <= 64 && !(t->mask >> i & 1)) continue;
     unsigned char w = pat(k, i);
     if (t->isbool) w &= 1;
     if (got[i] != w) return i;
@@ -61,9 +67,9 @@ static int diff(const unsigned char *got, int k, const struct vp_ty *t) {
 /* Dead stack below the driver is overwritten before every test, so that whatever a test reads from uninitialised
  * stack (padding of gcc temporaries, a va_arg that walks into the wrong area) is the same in a batch run, in the
  * isolated re-run and in the replay. */
-static void __attribute__((noinline)) scrub(void) {
-  volatile unsigned char pad[24576];
-  for (unsigned i = 0; i < sizeof pad; i++) pad[i] = 0xC7;
+static void __attribute__((noinline)) scrub(long extra) {
+  volatile unsigned char pad[24576 + extra];        /* extra: room for the by-value copies of large aggregates */
+  for (unsigned long i = 0; i < sizeof pad; i++) pad[i] = 0xC7;
 }
 
 int main(int argc, char **argv) {
@@ -87,9 +93,9 @@ int main(int argc, char **argv) {
     const struct vp_sg *g = &VP_SG[n];
     cur_sig = n; cur_cfg = cfg;
     for (int k = 0; k < g->nargs; k++) fill(vp_arg[k], k, &VP_TY[g->arg[k]]);
-    memset(vp_cap, 0xEE, sizeof vp_cap);
+    for (int k = 0; k < 32; k++) memset(vp_cap[k], 0xEE, k < g->nargs ? span(&VP_TY[g->arg[k]]) : 64);
     fill(vp_retsrc, VP_RETK, g->ret >= 0 ? &VP_TY[g->ret] : 0);
-    memset(vp_retdst, 0xEE, sizeof vp_retdst);
+    memset(vp_retdst, 0xEE, span(g->ret >= 0 ? &VP_TY[g->ret] : 0));
     vp_ncall = vp_nid = 0;
     vp_one = 1; vp_x[0] = 10; vp_x[1] = 100; vp_x[2] = 1000; vp_sink = 0;
     vp_done = 1.0; vp_dx[0] = 0.5; vp_dx[1] = 0.25; vp_dx[2] = 0.125; vp_dsink = 0;
@@ -97,7 +103,7 @@ int main(int argc, char **argv) {
     vp_t_calls = vp_t_bad = vp_t_misaligned = vp_t_depth = 0;
     vp_t_rax = 0;
     alarm(20);
-    scrub();
+    scrub(g->scrub);
     VP_CALL[n][cfg]();
     alarm(0);
     tests++; calls += vp_t_calls;
